@@ -16,12 +16,13 @@
 #include <string.h>
 #include <xmmintrin.h>
 #include "cimba.h"
+#include "cmb_priorityqueue.h"
 
 int __real_pthread_create(pthread_t *, const pthread_attr_t *, void *(*)(void *), void *);
 int __real_pthread_join(pthread_t, void **);
 
 #define MAXTRIALS 48
-#define NKINDS 6
+#define NKINDS 8
 static const size_t SIZES[] = { 9, 16, 17, 24, 40, 63, 64, 100, 200 };
 #define NSIZES (sizeof SIZES / sizeof SIZES[0])
 
@@ -91,6 +92,69 @@ static void *pool_user(struct cmb_process *me, void *ctx)
     return NULL;
 }
 
+/* kind 6: object queue + priority queue pipeline (queue tag pools, two guards each) */
+struct pipe { struct cmb_objectqueue *oq; struct cmb_priorityqueue *pq; unsigned n; uint64_t sum; uint64_t order; };
+static void *pipe_producer(struct cmb_process *me, void *ctx)
+{
+    (void)me; struct pipe *w = ctx;
+    for (unsigned i = 1; i <= w->n; i++) {
+        (void)cmb_process_hold(cmb_random_exponential(0.5));
+        (void)cmb_objectqueue_put(w->oq, (void *)(uintptr_t)i);
+    }
+    return NULL;
+}
+static void *pipe_middle(struct cmb_process *me, void *ctx)
+{
+    (void)me; struct pipe *w = ctx;
+    for (unsigned i = 1; i <= w->n; i++) {
+        void *o = NULL;
+        if (cmb_objectqueue_get(w->oq, &o) != CMB_PROCESS_SUCCESS) break;
+        (void)cmb_priorityqueue_put(w->pq, o, (int64_t)cmb_random_dice(0, 3), NULL);
+        if (cmb_random_flip()) (void)cmb_process_hold(cmb_random_uniform(0.0, 1.0));
+    }
+    return NULL;
+}
+static void *pipe_consumer(struct cmb_process *me, void *ctx)
+{
+    (void)me; struct pipe *w = ctx;
+    for (unsigned i = 1; i <= w->n; i++) {
+        void *o = NULL;
+        (void)cmb_process_hold(cmb_random_exponential(0.8));
+        if (cmb_priorityqueue_get(w->pq, &o) != CMB_PROCESS_SUCCESS) break;
+        w->sum += (uint64_t)(uintptr_t)o; w->order = w->order * 31 + (uint64_t)(uintptr_t)o;
+    }
+    return NULL;
+}
+
+/* kind 7: a condition observing a resource (observer tags, forwarded signals) */
+struct condw { struct cmb_resource *res; struct cmb_condition *cond; unsigned n; uint64_t woke; double t_last; };
+static bool res_is_free(const struct cmb_condition *c, const struct cmb_process *p, const void *ctx)
+{
+    (void)c; (void)p; const struct condw *w = ctx;
+    return cmb_resource_available(w->res) == 1;
+}
+static void *cond_user(struct cmb_process *me, void *ctx)
+{
+    (void)me; struct condw *w = ctx;
+    for (unsigned i = 0; i < w->n; i++) {
+        if (cmb_resource_acquire(w->res) != CMB_PROCESS_SUCCESS) break;
+        (void)cmb_process_hold(cmb_random_exponential(1.0));
+        cmb_resource_release(w->res);
+        (void)cmb_process_hold(cmb_random_exponential(0.3));
+    }
+    return NULL;
+}
+static void *cond_watcher(struct cmb_process *me, void *ctx)
+{
+    (void)me; struct condw *w = ctx;
+    for (unsigned i = 0; i < w->n; i++) {
+        (void)cmb_process_hold(cmb_random_uniform(0.1, 0.9));
+        if (cmb_condition_wait(w->cond, res_is_free, w) != CMB_PROCESS_SUCCESS) break;
+        w->woke++; w->t_last = cmb_time();
+    }
+    return NULL;
+}
+
 static void *looper(struct cmb_process *me, void *ctx)
 {
     (void)me; uint64_t *cnt = ctx;
@@ -146,6 +210,38 @@ static void trial_compute(const tparams *tp, tresult *res)
             if (i % 7 == 0) { baton_yield(); h ^= cmb_random_sfc64(); }
         }
         res->r[0] = h; res->r[1] = dbl(acc); res->r[2] = cmb_random_sfc64();
+        break; }
+    case 6: {
+        cmb_event_queue_initialize(0.0);
+        struct pipe w; memset(&w, 0, sizeof w); w.n = 3 + tp->n % 30u;
+        w.oq = cmb_objectqueue_create(); cmb_objectqueue_initialize(w.oq, "oq", 2);
+        w.pq = cmb_priorityqueue_create(); cmb_priorityqueue_initialize(w.pq, "pq", 3);
+        struct cmb_process *p[3];
+        cmb_process_func *f[3] = { pipe_producer, pipe_middle, pipe_consumer };
+        for (int i = 0; i < 3; i++) { p[i] = cmb_process_create(); cmb_process_initialize(p[i], "pp", f[i], &w, 2 - i); cmb_process_start(p[i]); }
+        baton_yield();
+        run_queue();
+        res->r[0] = w.sum; res->r[1] = w.order; res->r[2] = dbl(cmb_time()); res->r[3] = cmb_priorityqueue_length(w.pq) * 100 + cmb_objectqueue_length(w.oq);
+        for (int i = 0; i < 3; i++) { cmb_process_terminate(p[i]); cmb_process_destroy(p[i]); }
+        cmb_priorityqueue_destroy(w.pq); cmb_objectqueue_destroy(w.oq);
+        cmb_event_queue_terminate();
+        break; }
+    case 7: {
+        cmb_event_queue_initialize(0.0);
+        struct condw w; memset(&w, 0, sizeof w); w.n = 2 + tp->n % 10u;
+        w.res = cmb_resource_create(); cmb_resource_initialize(w.res, "r");
+        w.cond = cmb_condition_create(); cmb_condition_initialize(w.cond, "c");
+        cmb_condition_subscribe(w.cond, &w.res->guard);
+        struct cmb_process *p[3];
+        cmb_process_func *f[3] = { cond_user, cond_user, cond_watcher };
+        for (int i = 0; i < 3; i++) { p[i] = cmb_process_create(); cmb_process_initialize(p[i], "cw", f[i], &w, i); cmb_process_start(p[i]); }
+        baton_yield();
+        run_queue();
+        res->r[0] = w.woke; res->r[1] = dbl(w.t_last); res->r[2] = dbl(cmb_time());
+        (void)cmb_condition_unsubscribe(w.cond, &w.res->guard);
+        for (int i = 0; i < 3; i++) { if (cmb_process_status(p[i]) == CMB_PROCESS_RUNNING) cmb_process_stop(p[i], NULL); cmb_process_terminate(p[i]); cmb_process_destroy(p[i]); }
+        cmb_condition_destroy(w.cond); cmb_resource_destroy(w.res);
+        cmb_event_queue_terminate();
         break; }
     default: {                                                        /* leaves processes unfinished */
         cmb_event_queue_initialize(0.0);
